@@ -1,7 +1,8 @@
 #!/bin/bash
 # tools/sweep_seeds_wt.sh [ids...] -- like sweep_seeds.sh, but never touches /repo: each seeded change is
 # applied in a scratch worktree of /repo HEAD and the check runs against it through VF_REPO.
-cd /verif
+cd "$(dirname "$0")/.."
+HERE=$(pwd)
 IDS=${@:-$(ls seeded | grep -v '^_')}
 WT=$(mktemp -d /tmp/sw-XXXXXX); rmdir "$WT"
 git -C /repo worktree add -q --detach "$WT" HEAD || exit 2
@@ -10,15 +11,16 @@ for id in $IDS; do
   P=${id%%-*}
   [ -f seeded/$id/patch.diff ] || continue
   git -C "$WT" checkout -q -- . 
-  if ! git -C "$WT" apply /verif/seeded/$id/patch.diff 2>/dev/null; then echo "$id: patch does not apply"; continue; fi
+  if ! git -C "$WT" apply $HERE/seeded/$id/patch.diff 2>/dev/null; then echo "$id: patch does not apply"; continue; fi
   VF_EVIDENCE_DIR=/tmp/sweep-evidence VF_REPO="$WT" ./check $P --tier quick > /tmp/sweep-$id.out 2>&1; RC=$?
   git -C "$WT" checkout -q -- .
   N=$(grep -c '^VIOLATION' /tmp/sweep-$id.out)
   FN=$(grep '^VIOLATION' /tmp/sweep-$id.out | sed 's/.*replay=.*\/\([a-z_0-9]*\)-[0-9a-f]*\.json/\1/' | sort | uniq -c | tr '\n' ';')
-  python3 - "$id" "$P" "$RC" "$N" "$FN" <<'PY'
+  HERE=$HERE python3 - "$id" "$P" "$RC" "$N" "$FN" <<'PY'
 import json,sys
 id_,p,rc,n,fn=sys.argv[1:6]
-f=f'/verif/seeded/{id_}/meta.json'
+import os
+f=os.path.join(os.environ.get('HERE','/verif'),'seeded',id_,'meta.json')
 m=json.load(open(f))
 m['detected_by']={"check": f"./check {p} --tier quick", "exit_code": int(rc), "violation_lines": int(n), "harness_functions": fn.strip()}
 json.dump(m,open(f,'w'),indent=1)
